@@ -783,7 +783,7 @@ EventExpect(s) ==
                  ELSE IF i < s.evi \/ s.status = "idle" THEN <<"ok">> ELSE ResultOf(s)]]
 
 CaseJson(s) ==
-  [fam |-> TheCase.fam, class |-> TheCase.class,
+  [fam |-> TheCase.fam, class |-> TheCase.class, tag |-> TheCase.tag,
    srcs |-> [ly \in Lys |-> RProg(TheProg, ly)],
    inputs |-> [i \in DOMAIN TheCase.inputs |-> [cp |-> TheCase.inputs[i]]],
    events |-> [i \in 1..s.evi |-> [name |-> TheCase.events[i].ev, args |-> TheCase.events[i].args]],
@@ -801,6 +801,6 @@ Emit == (Terminal /\ st.status # "stuck") => PrintT(ToJson(CaseJson(st)))
 
 \* a case with defaults
 MkCase(fam, class, prog) == [fam |-> fam, class |-> class, prog |-> prog, inputs |-> <<>>, events |-> <<>>,
-                             failFast |-> FALSE, noSummary |-> FALSE]
+                             failFast |-> FALSE, noSummary |-> FALSE, tag |-> <<>>]
 
 =============================================================================
